@@ -147,7 +147,7 @@ def run(ctx):
     # ---- 2. build, drive the real code
     bin_gocql = vf.build_gotest(ctx, ".", ["common", "c18"])
     bin_lz4 = vf.build_gotest(ctx, "lz4", ["c18lz4"])
-    paths = {k: os.path.join(ctx.tmp, "vec_%s.ndjson" % k) for k in ("snappy", "lz4", "frames", "blobs", "wire", "resp", "push")}
+    paths = {k: os.path.join(ctx.tmp, "vec_%s.ndjson" % k) for k in ("snappy", "lz4", "frames", "blobs", "wire", "resp", "push", "mixed")}
     jobs = [
         ("snappy", bin_gocql, "TestVfC18Codec", {"VF_C18_OUT": paths["snappy"], "VF_C18_STREAMS": sp}),
         ("lz4", bin_lz4, "TestVfC18Codec", {"VF_C18_OUT": paths["lz4"], "VF_C18_STREAMS": sp}),
@@ -156,12 +156,17 @@ def run(ctx):
         ("wire", bin_gocql, "TestVfC18Conns", {"VF_C18_WIRE": paths["wire"]}),
         ("resp", bin_gocql, "TestVfC18Resp", {"VF_C18_RESP": paths["resp"]}),
         ("push", bin_gocql, "TestVfC18Push", {"VF_C18_PUSH": paths["push"]}),
+        ("mixed", bin_gocql, "TestVfC18Mixed", {"VF_C18_MIXED": paths["mixed"]}),
     ]
     summ = {}
     with cf.ThreadPoolExecutor(3) as ex:
         for (k, _, _, _), s in zip(jobs, ex.map(lambda j: _run_go(ctx, j[1], j[2], j[3]), jobs)):
             summ[k] = s
     ctx.log("drivers: %s" % json.dumps(summ)[:600])
+    if summ["mixed"]["problems"]:
+        ctx.add_drift("two-node sessions had problems of the environment: %s" % summ["mixed"]["problems"][:3])
+    if summ["mixed"]["vectors"] == 0:
+        raise vf.Inconclusive("the two-node sessions produced no compressed answer of node 1: %s" % summ["mixed"])
     if summ["wire"]["problems"]:
         ctx.add_drift("sessions of the negotiation table had functional problems: %s" % summ["wire"]["problems"][:3])
     vec = {k: vf.read_ndjson(p) for k, p in paths.items()}
@@ -179,7 +184,7 @@ def run(ctx):
     notes_nonstrict = []
     states, trans, undecided, judged, unjudged = gstates, gtrans, 0, 0, 0
     chosen = []
-    for k in ("snappy", "lz4", "frames", "blobs", "wire", "resp", "push"):
+    for k in ("snappy", "lz4", "frames", "blobs", "wire", "resp", "push", "mixed"):
         sel, skipped = _select(ctx, vec[k]) if k in ("snappy", "lz4") else (vec[k], 0)
         unjudged += skipped
         chosen += sel
